@@ -1,9 +1,15 @@
 """C08 - untrusted peer input (spec/PeerInput.tla, MC_PeerInput*, Trace_PeerInput; driver harness/c08).
 
 1. design level (TLC exhaustive): PeerInput with the replay-stops-at-closed-peer design satisfies Inv + isolation for every
-   interleaving of <= K message classes with the torrent life cycle; the as-is variant (cfg.asis) must yield a counterexample,
-   which is exported as a directed scenario (lead) for the driver.
-2. TLC as generator (-simulate on MC_PeerInputGen) of attack scenarios: label (torrent state), attackers, (peer, class) list.
+   interleaving of <= K message classes with the torrent life cycle and with the request-timeout timer of a peer we download
+   from (environment actions TimerFire / SnubDeliver racing with choke / unchoke / disconnect); two variants must yield a
+   counterexample, each exported as a directed scenario (lead) for the driver: cfg.asis (today's replay rule) and
+   cfg.guard = FALSE (a loop that does not ignore a stale timer event: MC_PeerInput_race).
+2. TLC as generator (-simulate on MC_PeerInputGen) of attack scenarios: label (torrent state), attackers, (peer, class) list
+   with timer steps (@fire / @snub / @disconnect) where the model enables them; the alphabet contains the generated ut_pex
+   families (every list length 0..100 of added / added.f / dropped / added6 / dropped6; repeated addresses in and across lists).
+   Directed families on top: timer histories (injected hand-over and real-time sweeps around the expiry), length sweeps of
+   every ut_pex list, all repeat patterns (in batches and alone) - rain dials the addresses it is told in between.
 3. driver: reader level (real peerreader over net.Pipe: deliveries, end state, allocation of one frame) and session level
    (real torrent.Session in child processes, attackers + one honest peer; crash / hang become Proc events).
 4. TLC as judge (Trace_PeerInput) of everything recorded.
@@ -26,6 +32,12 @@ def run(ctx):
         "maximum message size = Config.MaxMetadataSize (the value rain passes to the reader): 64 KiB at session level, 32/64 KiB at reader level; slack 64 KiB",
         "allocating / verifying states are reached through a magnet link (the only path with an open acceptor in those states)",
         "a blocked loop is reported when Torrent.Stats() does not answer twice within 3 s and the loop goroutine is parked in a rain frame",
+        "request-timeout timer: the hand-over of a fired timer event from peer.Run to the loop (peerSnubbedC) is performed by the driver "
+        "(overlay shim VerifC08Snub, only for a peer rain has sent a request to, i.e. whose timer has been armed) so that it can be placed "
+        "after later messages of the same peer (stale event); the real-time sweeps (silence until RequestTimeout -+ delta, RequestTimeout = 1 s) "
+        "exercise the real timer but cannot be expected to hit the few-instruction window between a Choke being taken and the timer being stopped",
+        "ut_pex lists name loopback addresses nobody listens on (127.0.7.x / 127.0.8.x port 1): rain's dials are refused at once; "
+        "MaxPeerDial is the default (80), so queued addresses are popped for dialling inside the same handler",
     ]
     lock = threading.Lock()
     orig_copy = ctx._spec_copy
@@ -40,11 +52,27 @@ def run(ctx):
     mc_err = []
     box = {}
     asis_done = threading.Event()
+    race_done = threading.Event()
+
+    def race_side():
+        # the loop without the stale-timer rule must FAIL (its counterexample is a directed scenario); then the timer design
+        try:
+            box["race"] = ctx.tlc_mc("MC_PeerInput", "MC_PeerInput_race.cfg", timeout=900, workers=2, expect_ok=False)
+            race_done.set()
+            ctx.tlc_mc("MC_PeerInput", "MC_PeerInput_timer.cfg", timeout=900, workers=3)
+            if not ctx.quick():
+                ctx.tlc_mc("MC_PeerInput", "MC_PeerInput_timer6.cfg", timeout=1800, workers=4)
+        except Exception as ex:  # noqa
+            mc_err.append(ex)
+        finally:
+            race_done.set()
 
     def mc():
+        t2 = threading.Thread(target=race_side)
+        t2.start()
         try:
             try:
-                box["asis"] = ctx.tlc_mc("MC_PeerInput", "MC_PeerInput_asis.cfg", timeout=900, workers=4, expect_ok=False)
+                box["asis"] = ctx.tlc_mc("MC_PeerInput", "MC_PeerInput_asis.cfg", timeout=900, workers=3, expect_ok=False)
             finally:
                 asis_done.set()
             ctx.tlc_mc("MC_PeerInput", "MC_PeerInput.cfg", timeout=900, workers=4)
@@ -53,14 +81,17 @@ def run(ctx):
                 ctx.tlc_mc("MC_PeerInput", "MC_PeerInput_k3p2.cfg", timeout=2400, workers=6)
         except Exception as ex:  # noqa
             mc_err.append(ex)
+        finally:
+            t2.join()
     th = threading.Thread(target=mc)
     th.start()
 
     def lead_of():
         asis_done.wait()
-        if "asis" not in box:
-            raise mc_err[0] if mc_err else vlib.MachineryError("as-is model check did not run")
-        return parse_lead(ctx, *box["asis"])
+        race_done.wait()
+        if "asis" not in box or "race" not in box:
+            raise mc_err[0] if mc_err else vlib.MachineryError("as-is / race model check did not run")
+        return parse_lead(ctx, "asis_lead", *box["asis"]), parse_lead(ctx, "race_lead", *box["race"], keep=("@fire", "@snub", "@disconnect"))
     try:
         body(ctx, lead_of)
     finally:
@@ -69,10 +100,11 @@ def run(ctx):
         raise mc_err[0]
 
 
-def parse_lead(ctx, ok, out):
-    """The as-is model must show the replay defect; its counterexample becomes a directed scenario."""
+def parse_lead(ctx, name, ok, out, keep=()):
+    """A variant model that must fail (as-is replay rule / loop without the stale-timer rule): its counterexample
+    becomes a directed scenario."""
     if ok:
-        raise vlib.MachineryError("the as-is replay model has no counterexample (spec no longer describes the lead)")
+        raise vlib.MachineryError("the %s variant model has no counterexample (spec no longer describes the lead)" % name)
     mi = re.search(r"Invariant (\S+) is violated", out)
     if not mi:
         raise vlib.MachineryError("as-is model check failed for another reason:\n" + out[-3000:])
@@ -82,10 +114,10 @@ def parse_lead(ctx, ok, out):
         st0 = re.search(r'/\\ ts = "(\w+)"', blocks[1])
         hs = re.findall(r'\[pe \|-> (\d+), cls \|-> "([^"]+)"\]', blocks[-1].split("/\\ h = ")[1].split("/\\ loop")[0])
         if st0 and hs:
-            lead = {"lab": st0.group(1), "npe": 1, "h": [{"pe": int(p), "cls": c} for p, c in hs if not c.startswith("@")]}
-            ctx.extra["asis_lead"] = {"state": st0.group(1), "h": ["%s:%s" % (p, c) for p, c in hs], "invariant": mi.group(1)}
+            lead = {"lab": st0.group(1), "npe": 1, "h": [{"pe": int(p), "cls": c} for p, c in hs if not c.startswith("@") or c in keep]}
+            ctx.extra[name] = {"state": st0.group(1), "h": ["%s:%s" % (p, c) for p, c in hs], "invariant": mi.group(1)}
     if not lead or not lead["h"]:
-        raise vlib.MachineryError("cannot parse the as-is counterexample:\n" + out[-3000:])
+        raise vlib.MachineryError("cannot parse the %s counterexample:\n" % name + out[-3000:])
     return lead
 
 
@@ -95,7 +127,7 @@ def body(ctx, lead_of):
 
     # ---- 2a. TLC as generator (the same run prints the alphabet with the design verdicts: spec side and driver side must agree)
     ngen = ctx.pick(220, 1900)
-    gen, _ = ctx.tlc_gen("MC_PeerInputGen", "MC_PeerInputGen.cfg", simulate=ngen, depth=16, timeout=1200)
+    gen, _ = ctx.tlc_gen("MC_PeerInputGen", "MC_PeerInputGen.cfg", simulate=ngen, depth=30, timeout=1200)
     hdr = [x for x in gen if "classes" in x]
     if not hdr:
         raise vlib.MachineryError("no class header from MC_PeerInputGen")
@@ -105,8 +137,15 @@ def body(ctx, lead_of):
     if drv_classes != set(verd.keys()):
         raise vlib.MachineryError("class alphabets differ: only spec %s / only driver %s" %
                                   (sorted(set(verd) - drv_classes), sorted(drv_classes - set(verd))))
-    classes = sorted(verd.keys())
-    lead = lead_of()
+    allcls = sorted(verd.keys())
+    fam_len = [c for c in allcls if c.startswith("ext.pex.len.")]      # generated ut_pex families (PeerInput.tla PexLenK / PexRepK)
+    fam_rep = [c for c in allcls if c.startswith("ext.pex.rep.")]
+    classes = [c for c in allcls if c not in set(fam_len) | set(fam_rep)]   # the hand-written alphabet
+    if len(fam_len) != 5 * 101 or len(fam_rep) != 90:
+        raise vlib.MachineryError("ut_pex families: %d length classes, %d repeat classes" % (len(fam_len), len(fam_rep)))
+    lead, race = lead_of()
+    if not any(m["cls"] == "@snub" for m in race["h"]):
+        raise vlib.MachineryError("the race counterexample does not deliver a timer event: %s" % race)
 
     # ---- 2. scenarios
     gen = [g for g in gen if "h" in g and g["h"]]
@@ -134,6 +173,52 @@ def body(ctx, lead_of):
     for st in ("down", "verify"):
         for b in piece_dep:
             add(st, 1, [{"pe": 1, "cls": "unchoke"}, {"pe": 1, "cls": "bitfield.full"}, {"pe": 1, "cls": b}, {"pe": 1, "cls": b}], "tmpl")
+    # ---- request-timeout timer as environment (design: TimerFire / SnubDeliver racing with choke / unchoke / disconnect)
+    def M(*cs, pe=1):
+        return [{"pe": pe, "cls": c} for c in cs]
+    add(race["lab"], race["npe"], race["h"], "lead")                  # the counterexample of the loop without the stale-timer rule
+    add("stopping", 1, race["h"], "lead")
+    for src in ("bitfield.full", "haveall", "have.last"):
+        add("down", 1, M(src, "unchoke", "@fire", "choke", "@snub"), "timer")
+        add("down", 1, M(src, "unchoke", "@fire", "choke", "unchoke", "@snub", "choke"), "timer")
+        add("down", 1, M(src, "unchoke", "@fire", "choke", "@snub", "unchoke", "@fire", "@snub", "choke", "unchoke"), "timer")
+        add("down", 1, M("unchoke", src, "@fire", "choke", "@disconnect", "@snub"), "timer")
+    add("down", 1, M("allowedfast.in0", "bitfield.full", "@fire", "choke", "@snub", "unchoke"), "timer")      # allowed-fast download while choked
+    add("down", 1, M("bitfield.full", "unchoke", "@fire", "piece.unreq", "@snub", "choke"), "timer")
+    add("down", 1, M("bitfield.full", "unchoke", "@fire", "reject.all", "@snub", "choke"), "timer")
+    add("down", 2, M("bitfield.full", "unchoke", "@fire", "choke") + M("bitfield.full", "unchoke", "@fire", pe=2) + M("@snub") + M("choke", "@snub", pe=2), "timer")
+    add("meta", 1, M("ext.hs.ok", "@fire", "ext.meta.reject", "@snub"), "timer")         # the same timer guards metadata requests
+    add("meta", 1, M("ext.hs.ok", "@fire", "ext.meta.datajunk", "@snub", "ext.meta.reject"), "timer")
+    add("meta", 1, M("ext.hs.ok", "@wait", "ext.meta.reject"), "timer")
+    # real time: the peer is silent until RequestTimeout -+ delta and chokes / unchokes / goes away right then
+    offs = [-3000, -1500, -800, -400, -200, -100, -50, 0, 50, 100, 200, 400, 800, 1500, 3000, 10000]
+    rng.shuffle(offs)
+    for k, us in enumerate(offs[:ctx.pick(5, len(offs))]):
+        tail = [("choke",), ("choke", "unchoke"), ("@disconnect",), ("choke", "@wait", "unchoke"), ("unchoke", "choke")][k % 5]
+        add("down", 1, M("bitfield.full", "unchoke", "@at:%d" % us, *tail), "timer")
+    add("down", 1, M("bitfield.full", "unchoke", "@wait", "choke", "unchoke", "@wait", "choke"), "timer")
+    # ---- ut_pex payloads: every length 0..100 of every list (whole entries + a partial one), repeated addresses inside one
+    #      list / in both lists / across messages; rain dials what it is told (nobody listens there) in between
+    pex_states = ["down", "meta", "verify", "alloc", "stopping"]
+    for k, f in enumerate(("added", "addedf", "dropped", "added6", "dropped6")):
+        own = sorted((c for c in fam_len if c.startswith("ext.pex.len.%s." % f)), key=lambda c: int(c.rsplit(".", 1)[1]))
+        sts = pex_states if not ctx.quick() else (["down"] if f in ("addedf", "added6", "dropped6") else ["down", pex_states[1 + (ctx.seed + k) % 4]])
+        for st in sts:
+            add(st, 1, M(*own), "pex")
+        desc = list(reversed(own))
+        add("down", 2, [m for a, b in zip(own[::2], desc[::2]) for m in (M(a)[0], M(b, pe=2)[0])], "pex")
+    reps = list(fam_rep)
+    rng.shuffle(reps)
+    nrep = 9
+    for k in range(0, len(reps), nrep):
+        chunk = reps[k:k + nrep]
+        add(pex_states[(k // nrep) % (2 if ctx.quick() else 5)], 1, M(*chunk), "pex")
+        if not ctx.quick():
+            add("down", 1, M(*reversed(chunk)), "pex")
+    for c in sorted(fam_rep):                                          # one list of a fresh queue: every pattern once on its own
+        if ctx.quick() and rng.randrange(3):
+            continue
+        add("down", 1, M(c, "ext.pex.ok"), "pex")
     singles = [(st, c) for st in STATES for c in classes]
     rng.shuffle(singles)
     for st, c in singles[:ctx.pick(90, len(singles))]:
@@ -153,6 +238,7 @@ def body(ctx, lead_of):
             continue
         k = rng.choice(idx)
         h[k]["cls"] = "mut:%s:%d:%s" % (rng.choice(["trunc", "flip", "splice"]), rng.randrange(1, 4000), h[k]["cls"])
+        h = [m for m in h if m["cls"] in ("@stop", "@disconnect") or not m["cls"].startswith("@")]   # framing lost: no barrier for timer steps
         add(s["lab"], s["npe"], h, "mut")
     scenarios = []
     for i, s in enumerate(scen):
@@ -160,6 +246,8 @@ def body(ctx, lead_of):
         for m in s["h"]:
             if m["cls"] == "@stop":
                 split = len(msgs)
+            elif m["cls"].startswith("@") and m["pe"] < 1:
+                continue
             else:
                 msgs.append({"pe": m["pe"], "cls": m["cls"]})
         if s["lab"] == "stopping" and split < 0:
@@ -172,7 +260,11 @@ def body(ctx, lead_of):
                 hs0.append(p)     # no extension handshake under test on this peer: the ping barrier can be used
         scenarios.append({"id": i, "st": s["lab"], "npe": npe, "hs0": hs0, "msgs": msgs, "split": max(split, 0), "kind": s["kind"]})
     vlib.log("scenarios: %d (%s)" % (len(scenarios), ", ".join("%s=%d" % (k, sum(1 for s in scenarios if s["kind"] == k))
-                                                                 for k in ("lead", "tmpl", "single", "gen", "mut"))))
+                                                                 for k in ("lead", "tmpl", "timer", "pex", "single", "gen", "mut"))))
+    ctx.extra["session_scenarios_by_kind"] = {k: sum(1 for s in scenarios if s["kind"] == k) for k in ("lead", "tmpl", "timer", "pex", "single", "gen", "mut")}
+    ctx.extra["session_timer_steps"] = {k: sum(1 for s in scenarios for m in s["msgs"] if m["cls"].split(":")[0] == k)
+                                        for k in ("@fire", "@snub", "@wait", "@at", "@disconnect")}
+    ctx.extra["session_pex_family_classes_used"] = len(set(m["cls"] for s in scenarios for m in s["msgs"] if m["cls"].startswith(("ext.pex.len.", "ext.pex.rep."))))
 
     # ---- 3a. reader level
     streams = []
@@ -180,11 +272,14 @@ def body(ctx, lead_of):
         for c in classes:
             streams.append({"seq": [c], "maxmsg": mm, "frag": 0})
             streams.append({"seq": [c], "maxmsg": mm, "frag": rng.randrange(1, 1 << 30)})
+    fam = fam_len + fam_rep
+    for c in (rng.sample(fam, 60) if ctx.quick() else fam):        # generated families: the delivered list lengths must be exact
+        streams.append({"seq": [c], "maxmsg": rng.choice((32768, 65536)), "frag": rng.randrange(0, 1 << 30)})
     nstreams = ctx.pick(400, 4000)
     per_peer = []
     for s in scenarios:
         for p in range(1, s["npe"] + 1):
-            q = [m["cls"] for m in s["msgs"] if m["pe"] == p]
+            q = [m["cls"] for m in s["msgs"] if m["pe"] == p and not m["cls"].startswith("@")]
             if len(q) >= 2:
                 per_peer.append(q)
     rng.shuffle(per_peer)
@@ -359,6 +454,7 @@ def judge_session(ctx, path, scenarios, verd):
     conf = {}       # (state, class) -> observed result of single-message scenarios
     memmax = [0]
     nobs = 0
+    ntimer = {}
     for sid in sorted(per):
         sc = by_id[sid]
         if sid in skipped:
@@ -372,6 +468,11 @@ def judge_session(ctx, path, scenarios, verd):
                 lines.append((owner, {"op": "Msg", "pe": e["pe"], "cls": e["cls"]}))
             elif op == "Stop":
                 lines.append((owner, {"op": "Stop"}))
+            elif op == "Timer":
+                lines.append((owner, {"op": "Timer", "pe": e["pe"], "what": e["what"]}))
+                ntimer[e["what"]] = ntimer.get(e["what"], 0) + (1 if e.get("ok", 0) == 1 else 0)
+            elif op == "Disc":
+                lines.append((owner, {"op": "Disc", "pe": e["pe"]}))
             elif op == "Obs":
                 nobs += 1
                 lines.append((owner, {"op": "Obs", "pe": e["pe"], "alive": e["alive"], "listed": e["listed"], "pong": e["pong"]}))
@@ -418,6 +519,9 @@ def judge_session(ctx, path, scenarios, verd):
             if (obs == "dropped" and "dropped" not in exp) or (obs == "alive" and not (exp & {"handled", "queued", "skipped"})):
                 div.append("%s/%s/%s: design %s, observed %s" % (st, c, phase, sorted(exp), obs))
     ctx.extra["session_alloc_max_per_scenario"] = memmax[0]
+    ctx.extra["session_timer_steps_effective"] = ntimer      # fire: timer known to be armed; snub: event taken by the loop
+    if sum(1 for s in scenarios if any(m["cls"] == "@snub" for m in s["msgs"])) >= 10 and ntimer.get("snub", 0) < 5:
+        raise vlib.MachineryError("timer events were scripted but hardly any reached the loop: %s" % ntimer)
     ctx.extra["single_message_table"] = {"cells": len(conf), "divergent_from_design_table": div[:40]}
 
     def report(owner, tag, ev):
